@@ -29,7 +29,11 @@ def _line_var_and_fields(ctx, fn) -> T.Tuple[str, T.Dict[str, ast.AST], ast.AST,
     """Locate: the per-line variable, the expressions for (status, path), the returned element, the filter tests."""
     rets = [n for n in ast.walk(fn.node) if isinstance(n, ast.Return) and n.value is not None]
     ctx.require(len(rets) == 1, "VCSAPI.status has several return statements (shape not enumerated)")
-    ret = shapes.resolve_alias(fn, rets[0].value)
+    ret = None
+    if isinstance(rets[0].value, ast.Name):
+        ret = shapes.loop_as_listcomp(fn, rets[0].value.id, ctx.prog)
+    if ret is None:
+        ret = shapes.resolve_alias(fn, rets[0].value)
     ctx.require(isinstance(ret, ast.ListComp) and len(ret.generators) == 1,
                 f"VCSAPI.status does not return a single-generator list comprehension: `{unparse(ret)[:60]}`")
     gen = ret.generators[0]
